@@ -284,7 +284,20 @@ def fam_drop(ctx):
     return {"must_report": ["ST.drop|discard_bad"], "must_not_report": ["ST.drop|discard_ok", "ST.drop|discard_ok_branch"]}
 
 
-FAMILIES = {"drop": fam_drop, "stale": fam_stale, "dirty": fam_dirty, "recursion": fam_recursion, "bounds": fam_bounds, "errflow": fam_errflow, "fold": fam_fold, "readloop": fam_readloop, "lock": fam_lock, "gate": fam_gate, "publish": fam_publish, "taint": fam_taint, "panic": fam_panic, "loop": fam_loop, "slice": fam_slice}
+def fam_bitfield(ctx):
+    from . import bitfield
+    from .engine import Ctx
+    sub = Ctx(ctx.prog, ctx.prop, ctx.tier, selftest=True)
+    n = bitfield.rule_bitfields(sub, "ST.bits", ["verif_selftest"])
+    if n < 3:
+        raise RuntimeError("selftest: E-bitfield found %d masks in the witness crate, expected at least 3" % n)
+    bad = {v.key.split("|")[1].split("::")[-1] for v in sub.violations}
+    for i in ("pack_fields_ok", "pack_fields_bad", "unpack_fields_ok"):
+        (ctx.bad if i in bad else ctx.ok)("ST.bits", [i], "mask is not 2^shift - 1" if i in bad else "silent", body(ctx, i).loc())
+    return {"must_report": ["ST.bits|pack_fields_bad"], "must_not_report": ["ST.bits|pack_fields_ok", "ST.bits|unpack_fields_ok"]}
+
+
+FAMILIES = {"bitfield": fam_bitfield, "drop": fam_drop, "stale": fam_stale, "dirty": fam_dirty, "recursion": fam_recursion, "bounds": fam_bounds, "errflow": fam_errflow, "fold": fam_fold, "readloop": fam_readloop, "lock": fam_lock, "gate": fam_gate, "publish": fam_publish, "taint": fam_taint, "panic": fam_panic, "loop": fam_loop, "slice": fam_slice}
 
 
 def for_families(names):
